@@ -94,7 +94,8 @@ def generate(seed, tier):
         ops.append(["commit", arg])
     rec = _hist.make_record(ID, seed, cfg, ops)
     qr = random.Random("%s/queries" % seed)
-    rec["queries"] = [Q.gen_query(qr, cfg, depth=qr.choice((1, 2, 2, 3))) for _ in range(8)]
+    rec["queries"] = ([Q.gen_query(qr, cfg, depth=qr.choice((1, 2, 2, 3))) for _ in range(5)]
+                      + [Q.gen_shaped_query(qr, cfg) for _ in range(3)])
     w = mrng.choice(WEIGHTINGS)
     wspec = [w]
     if w == "bm25f_params":
